@@ -23,16 +23,16 @@ type topo struct {
 
 var topos = []topo{
 	{"C", []string{"c"}, []int{0}},
-	{"F>C", []string{"f", "c"}, []int{0, 1}},          // F02a: fixed quota touched first
-	{"C>F", []string{"f", "c"}, []int{1, 0}},          // concurrent quota touched first
-	{"P/C", []string{"c", "c0"}, []int{1}},            // child limiter, concurrent parent
-	{"P/C/G", []string{"c", "c0", "c1"}, []int{2}},    // three levels
-	{"F>P/C", []string{"f", "c", "c1"}, []int{0, 2}},  // fixed first, then child with parent
-	{"C1>C2", []string{"c", "c"}, []int{0, 1}},        // two independent concurrent quotas in one flow
+	{"F>C", []string{"f", "c"}, []int{0, 1}},         // F02a: fixed quota touched first
+	{"C>F", []string{"f", "c"}, []int{1, 0}},         // concurrent quota touched first
+	{"P/C", []string{"c", "c0"}, []int{1}},           // child limiter, concurrent parent
+	{"P/C/G", []string{"c", "c0", "c1"}, []int{2}},   // three levels
+	{"F>P/C", []string{"f", "c", "c1"}, []int{0, 2}}, // fixed first, then child with parent
+	{"C1>C2", []string{"c", "c"}, []int{0, 1}},       // two independent concurrent quotas in one flow
 	{"C2>C1", []string{"c", "c"}, []int{1, 0}},
-	{"U+C", []string{"c", "c"}, []int{1}},             // an unreferenced concurrent quota: its system Inc is live
-	{"Uf+C", []string{"f", "c"}, []int{1}},            // an unreferenced fixed quota: touched first by its system Inc
-	{"P>C", []string{"c", "c0"}, []int{0, 1}},         // parent limited first, then its child
+	{"U+C", []string{"c", "c"}, []int{1}},     // an unreferenced concurrent quota: its system Inc is live
+	{"Uf+C", []string{"f", "c"}, []int{1}},    // an unreferenced fixed quota: touched first by its system Inc
+	{"P>C", []string{"c", "c0"}, []int{0, 1}}, // parent limited first, then its child
 }
 
 type gcfg struct {
@@ -271,44 +271,61 @@ func (h *hist) apply(tok string) {
 	}
 }
 
-func exhaustive(emit func(proto.Case), budget int) {
-	seqs := endingSeqs()
+// exhaustive small scope: two transactions; the first admitted by a plain or an early-answered request; every
+// sequence of distinct ending events (response, proxy error, expiry + GC) of bounded length for each; every
+// interleaving of the two scripts; then a probe.
+//
+//	topology C, max 1, plain admission: ending sequences up to length 3 (all 16)        6 842 cases
+//	topologies C, F>C, C>F: max 1 and 2, both admissions, sequences up to length 2     14 424 cases
+//	the other topologies: max 1, plain admission, sequences up to length 2              9 616 cases
+func exhaustive(emit func(proto.Case)) {
+	all := endingSeqs()
+	var short [][]string
+	for _, s := range all {
+		if len(s) <= 2 {
+			short = append(short, s)
+		}
+	}
 	id := 0
-	for ti, tp := range topos {
-		for _, mx := range []int64{1, 2} {
-			g := gcfg{t0: baseT0, gcSec: 1, early: true, tp: tp, max: make([]int64, len(tp.quotas)), expSec: make([]int64, len(tp.quotas))}
-			for i := range tp.quotas {
-				g.max[i] = mx
-				g.expSec[i] = 1
-			}
-			// two transactions: all admission kinds x all ending sequences x all interleavings, then a probe
-			for _, a1 := range []string{"req", "early"} {
-				for _, e1 := range seqs {
-					for _, e2 := range seqs {
-						if ti >= 3 && (len(e1) > 2 || len(e2) > 2) && budget <= 1 {
-							continue // larger topologies: ending sequences of length <= 2
-						}
-						s1 := []string{a1 + " 1"}
-						for _, e := range e1 {
-							s1 = append(s1, e+" 1")
-						}
-						s2 := []string{"req 2"}
-						for _, e := range e2 {
-							s2 = append(s2, e+" 2")
-						}
-						interleave([][]string{s1, s2}, func(toks []string) {
-							h := &hist{g: g, now: g.t0}
-							h.ops = append(h.ops, g.line())
-							for _, t := range toks {
-								h.apply(t)
-							}
-							h.req(9, false)
-							id++
-							emit(proto.Case{ID: fmt.Sprintf("x%d", id), Ops: h.ops})
-						})
+	run := func(tp topo, mx int64, admits []string, seqs [][]string) {
+		g := gcfg{t0: baseT0, gcSec: 1, early: true, tp: tp, max: make([]int64, len(tp.quotas)), expSec: make([]int64, len(tp.quotas))}
+		for i := range tp.quotas {
+			g.max[i] = mx
+			g.expSec[i] = 1
+		}
+		for _, a1 := range admits {
+			for _, e1 := range seqs {
+				for _, e2 := range seqs {
+					s1 := []string{a1 + " 1"}
+					for _, e := range e1 {
+						s1 = append(s1, e+" 1")
 					}
+					s2 := []string{"req 2"}
+					for _, e := range e2 {
+						s2 = append(s2, e+" 2")
+					}
+					interleave([][]string{s1, s2}, func(toks []string) {
+						h := &hist{g: g, now: g.t0}
+						h.ops = append(h.ops, g.line())
+						for _, t := range toks {
+							h.apply(t)
+						}
+						h.req(9, false)
+						id++
+						emit(proto.Case{ID: fmt.Sprintf("x%d", id), Ops: h.ops})
+					})
 				}
 			}
+		}
+	}
+	run(topos[0], 1, []string{"req"}, all)
+	for ti, tp := range topos {
+		if ti < 3 {
+			for _, mx := range []int64{1, 2} {
+				run(tp, mx, []string{"req", "early"}, short)
+			}
+		} else {
+			run(tp, 1, []string{"req"}, short)
 		}
 	}
 }
@@ -316,7 +333,7 @@ func exhaustive(emit func(proto.Case), budget int) {
 func gen(r *prng.R, f proto.Flags, emit func(proto.Case)) {
 	n := 1500
 	if f.Tier == "thorough" {
-		n = 20000
+		n = 4000
 	}
 	n *= f.Budget
 	for k := 0; k < n; k++ {
@@ -344,6 +361,6 @@ func gen(r *prng.R, f proto.Flags, emit func(proto.Case)) {
 		}
 	}
 	if f.Tier == "thorough" {
-		exhaustive(emit, f.Budget)
+		exhaustive(emit)
 	}
 }
